@@ -12,7 +12,7 @@ PARTIAL = ['wall-clock relation (CPython re time proportional to the modelled se
 TRUSTED_EXTRA = ['cost model: work = size of the complete backtracking search tree (SqlModel/RegexCost.lean)']
 
 PREFIXES = ['', "'", '"', '`', '$a$', '/*', '/*+', '--', '# ', '(', 'a', '1', '[', '´', '1.', '0x', ':', '@', '\\', 'LEFT ', 'END ', 'NULLS ', "AT TIME ZONE '"]
-SUFFIXES = ['', 'x', "'", '"', '\n', '!', '\\', ' ']
+SUFFIXES = ['', 'x', "'", '"', '\n', '!', '\\', ' ', '$', '#']      # `$` `#`: continue a name for the word rule but are no word characters (third pass)
 BUDGET = 6.0
 
 
